@@ -17,8 +17,9 @@
 //!   TTL of the SOA record itself — `rfc2308_negative_ttl`.
 //! * RFC 2181 §5.4.1 / §10.1.1 motivate why CNAME TTLs bound the lifetime of an aliased answer.
 //!
-//! Where the statement allows two readings the model returns both (`Lifetime::lo`/`hi`); the
-//! check asserts only the weaker one and counts how often they differ.
+//! L is computed from the *stored* TTLs, i.e. after each record has been clamped with the bounds of
+//! its own type (the statement's "per-type clamped stored TTL"); the other conceivable reading --
+//! the smallest upstream TTL -- is returned as `Lifetime::alt` and only counted.
 
 use serde::{Deserialize, Serialize};
 
@@ -97,6 +98,8 @@ pub fn reported(stored: u64, elapsed_ns: u64) -> u64 {
 pub struct Lifetime {
     pub lo: u64,
     pub hi: u64,
+    /// L under the reading "smallest upstream TTL, clamped to the query type's bounds" (not asserted)
+    pub alt: u64,
 }
 
 /// `records` = (type, upstream TTL) of every record of the message, all sections.
@@ -112,17 +115,14 @@ pub fn positive_lifetime(cfg: &Config, qtype: TypeCode, records: &[(TypeCode, u3
     // reading 2: smallest *stored* (per-type clamped) TTL, clamped to the query type's bounds
     let stored = rel.iter().map(|(t, ttl)| clamp_record_ttl(cfg, *t, *ttl)).min().unwrap();
     let (a, b) = (clamp(raw, qb), clamp(stored, qb));
-    Some(Lifetime {
-        lo: a.min(b),
-        hi: a.max(b),
-    })
+    Some(Lifetime { lo: b, hi: b, alt: a })
 }
 
 /// None = the negative answer carries no negative TTL: the statement defines no bound
 pub fn negative_lifetime(cfg: &Config, qtype: TypeCode, negative_ttl: Option<u32>) -> Option<Lifetime> {
     let n = negative_ttl?;
     let l = clamp(n as u64, cfg.bounds_for(qtype).neg());
-    Some(Lifetime { lo: l, hi: l })
+    Some(Lifetime { lo: l, hi: l, alt: l })
 }
 
 /// RFC 2308 §5
